@@ -2,6 +2,8 @@
 from harness import common, layera as A, schemes as S
 
 from univers.version_constraint import VersionConstraint
+import attr
+import copy
 
 MODULES = ["Univers.Props.C02", "Univers.Py.ClassPins"]
 LEVEL = "proof"
@@ -85,11 +87,16 @@ def correspondence(ctx):
         entry = [("in", lambda v, k: v in k), ("contains", lambda v, k: k.contains(v)), ("satisfies", lambda v, k: v.satisfies(k)),
                  # the same constraint obtained by inverting its inverse, and by attr.evolve of another one
                  ("in (constraint made by invert())", lambda v, k: v in VersionConstraint(comparator=INVTXT[k.comparator], version=k.version).invert()),
-                 ("in (constraint inverted twice)", lambda v, k: v in k.invert().invert())]
+                 ("in (constraint inverted twice)", lambda v, k: v in k.invert().invert()),
+                 ("in (constraint made by attr.evolve of one with another comparator)",
+                  lambda v, k: v in attr.evolve(VersionConstraint(comparator=INVTXT[k.comparator], version=k.version), comparator=k.comparator)),
+                 ("in (constraint made by attr.evolve of one on another version)",
+                  lambda v, k: v in attr.evolve(VersionConstraint(comparator=k.comparator, version=v), version=k.version)),
+                 ("in (copy.copy of the constraint)", lambda v, k: v in copy.copy(k))]
         for (sa, a) in sub:
             for (sb, b) in sub:
                 for c, f in OPF.items():
-                    for ename, ef in (entry if (len(sa) + len(sb)) % 3 == 0 else (entry[:1] + entry[3:4])):
+                    for ename, ef in (entry if (len(sa) + len(sb)) % 3 == 0 else (entry[:1] + entry[3:4] + entry[5:6])):
                         try:
                             got = ef(a, VersionConstraint(comparator=TXT[c], version=b))
                             want = bool(f(a, b))
